@@ -150,9 +150,15 @@ func (s *Store) BeginTX(ctx context.Context, options *sql.TxOptions) (ledgercont
 }
 
 func (s *Store) Commit(ctx context.Context) error {
-	if err := s.enter(ctx, "Commit"); err != nil {
-		return err
+	// no fault hook here: a failing commit is the COMMIT / RELEASE SAVEPOINT statement
+	// failing (Cluster.CommitFault, site "sql:RELEASE SAVEPOINT"), which ends the transaction
+	if s.c.Sched != nil {
+		s.c.Sched.Yield(ctx, "Commit")
 	}
+	s.c.mu.Lock()
+	s.c.stats.calls++
+	s.c.mu.Unlock()
+	s.c.emit(ctx, s.sess, "call", "Commit", s.l.Name, "")
 	if s.bunTx == nil {
 		return errors.New("cannot commit transaction: not in a transaction")
 	}
@@ -163,11 +169,23 @@ func (s *Store) Rollback(ctx context.Context) error {
 	if s.c.Sched != nil {
 		s.c.Sched.Yield(ctx, "Rollback")
 	}
+	s.c.mu.Lock()
+	s.c.stats.calls++
+	s.c.mu.Unlock()
 	s.c.emit(ctx, s.sess, "call", "Rollback", s.l.Name, "")
 	if s.bunTx == nil {
 		return errors.New("cannot rollback transaction: not in a transaction")
 	}
-	return s.bunTx.Rollback()
+	var injected error
+	if s.c.Hook != nil {
+		// a ROLLBACK that "fails" (connection lost) still ends the transaction server-side
+		injected = s.c.Hook(ctx, "Rollback")
+	}
+	err := s.bunTx.Rollback()
+	if injected != nil {
+		return injected
+	}
+	return err
 }
 
 func (s *Store) LockLedger(ctx context.Context) (ledgercontroller.Store, bun.IDB, func() error, error) {
